@@ -115,6 +115,7 @@ func (s *subscriptionsState) DeletePeer(peer uint64) {
 	event := &api.StateBroadcastEvent{Subscriptions: []*api.Subscription{}}
 
 	for _, subscription := range toDelete {
+		subscription := subscription
 		subscription.LastDeleted = now
 		s.set(subscription)
 		event.Subscriptions = append(event.Subscriptions, &subscription)
@@ -134,6 +135,7 @@ func (s *subscriptionsState) DeleteSession(id string) {
 	event := &api.StateBroadcastEvent{Subscriptions: []*api.Subscription{}}
 
 	for _, subscription := range toDelete {
+		subscription := subscription
 		subscription.LastDeleted = now
 		s.set(subscription)
 		event.Subscriptions = append(event.Subscriptions, &subscription)
